@@ -29,6 +29,9 @@ TSendBuf  == Hdr.sendbuf
 TMaxEpoch == Hdr.maxepoch
 TChanCap  == Hdr.chancap
 TCancel   == TReqs
+Idx(r)    == CHOOSE i \in DOMAIN Hdr.reqs : Hdr.reqs[i] = r
+TCapOf(r) == Hdr.caps[Idx(r)]
+TMulti(r) == Hdr.multi[Idx(r)]
 
 VARIABLES
   l,          \* next trace line
@@ -38,9 +41,13 @@ VARIABLES
   srvUp,      \* the server process is listening (the transport may not be ready yet)
   unrep,      \* requests whose call has taken a response from its channel without having logged it yet
   closing,    \* the node's context is being cancelled (between NodeCancelBegin and NodeCancel)
-  lateErr     \* a send-waiting one-way request whose send error is routed after its confirmation
-tvars == <<vars, l, handed, sentOn, stopping, srvUp, unrep, closing, lateErr>>
-TUnch == UNCHANGED <<handed, sentOn, stopping, srvUp, unrep, closing, lateErr>>
+  lateErr,    \* a send-waiting one-way request whose send error is routed after its confirmation
+  hfail,      \* requests whose handler answered with an error status (the response is a reply that carries an error)
+  pendF,      \* streaming calls over several nodes: responses of OTHER nodes that have been announced (their Route
+              \* event) but have not reached the call's shared reply channel yet
+  errSeen     \* such calls: whether an error of this node ("own") / of another node ("for") has been counted
+tvars == <<vars, l, handed, sentOn, stopping, srvUp, unrep, closing, lateErr, hfail, pendF, errSeen>>
+TUnch == UNCHANGED <<handed, sentOn, stopping, srvUp, unrep, closing, lateErr, hfail, pendF, errSeen>>
 
 Ev == Trace[l]
 Is(e) == l <= Len(Trace) /\ Trace[l].ev = e
@@ -49,7 +56,8 @@ M == Ev.msg
 Who(w) == (w = 1 /\ Ev.who > 0) \/ (w = -1 /\ Ev.who < 0)
 
 TInit == Init /\ l = 2 /\ handed = {} /\ sentOn = [r \in TReqs |-> 0] /\ stopping = FALSE /\ srvUp = TRUE
-         /\ unrep = {} /\ closing = FALSE /\ lateErr = 0
+         /\ unrep = {} /\ closing = FALSE /\ lateErr = 0 /\ hfail = {}
+         /\ pendF = [r \in TReqs |-> [k \in {"fok", "ferr", "fown"} |-> 0]] /\ errSeen = [r \in TReqs |-> {}]
 
 Stutter == UNCHANGED vars
 
@@ -72,12 +80,12 @@ THandOffWait ==
 \* performs the hand-off; the second finds it done.
 DoHandOff(m) == IF SendBuf = 0 THEN HandOffDirect(m) ELSE HandOffQueue(m)
 THandOff ==
-  /\ Is("HandOff") /\ Step /\ UNCHANGED <<sentOn, stopping, srvUp, unrep, closing, lateErr>>
+  /\ Is("HandOff") /\ Step /\ UNCHANGED <<sentOn, stopping, srvUp, unrep, closing, lateErr, hfail, pendF, errSeen>>
   /\ IF M \in handed THEN Stutter /\ UNCHANGED handed
      ELSE DoHandOff(M) /\ handed' = handed \cup {M}
 
 TDequeue ==
-  /\ Is("Dequeue") /\ Step /\ UNCHANGED <<sentOn, stopping, srvUp, unrep, closing, lateErr>>
+  /\ Is("Dequeue") /\ Step /\ UNCHANGED <<sentOn, stopping, srvUp, unrep, closing, lateErr, hfail, pendF, errSeen>>
   /\ IF SendBuf = 0
        THEN IF M \in handed THEN Stutter /\ cur = M /\ UNCHANGED handed
             ELSE HandOffDirect(M) /\ handed' = handed \cup {M}
@@ -93,12 +101,28 @@ TOwnMarker == /\ (Is("ClosedReply") \/ Is("CtxReply")) /\ Step /\ TUnch /\ Stutt
 \* itself is visible to others (it frees a slot of the channel) before the event
 \* is in the trace.  The receive is therefore a silent step (TakeSilently) that
 \* the event confirms; a call handles one response at a time.
-ValueOK(v) == IF Is("CallConfirm") THEN v \in {"conf", "err"} ELSE (v = "err") = Ev.err
+\* (a reply whose handler failed is a reply - "ok" in Channel.tla - that carries the handler's error)
+ValueOK(v) == IF Is("CallConfirm") THEN v \in {"conf", "err"}
+              ELSE IF Ev.foreign THEN v = (IF Ev.err THEN "ferr" ELSE "fok")
+              ELSE v \in {"ok", "err"} /\ (v = "err" \/ (v = "ok" /\ M \in hfail)) = Ev.err
 TCallRecv ==
-  /\ (Is("CallRecv") \/ Is("CallConfirm")) /\ Step /\ UNCHANGED <<handed, sentOn, stopping, srvUp, closing, lateErr>>
+  /\ (Is("CallRecv") \/ Is("CallConfirm")) /\ Step /\ UNCHANGED <<handed, sentOn, stopping, srvUp, closing, lateErr, hfail, pendF>>
+  /\ errSeen' = IF Is("CallRecv") /\ Ev.err THEN [errSeen EXCEPT ![M] = @ \cup {IF Ev.foreign THEN "for" ELSE "own"}] ELSE errSeen
   /\ IF M \in unrep
        THEN Stutter /\ ValueOK(resp[M][taken[M]]) /\ unrep' = unrep \ {M}
        ELSE Take(M) /\ ValueOK(resp[M][taken[M] + 1]) /\ UNCHANGED unrep
+
+\* a send-waiting multicast over several nodes logs its confirmations without naming the node: this one
+\* may be another node's
+TCallConfirmOther == Is("CallConfirm") /\ Ev.multi /\ Step /\ TUnch /\ Stutter /\ cpc[M] \in {"wait", "done"}
+
+\* A streaming call over several nodes: another node's channel hands a response to the call's reply channel
+\* (its Route event, logged under that node's router mutex before the channel operation).  A caller's own
+\* answer ("own") is dropped when the channel is full.
+TFRoute ==
+  /\ Is("FRoute") /\ Step /\ Stutter /\ UNCHANGED <<handed, sentOn, stopping, srvUp, unrep, closing, lateErr, hfail, errSeen>>
+  /\ LET k == IF Ev.own THEN "fown" ELSE IF Ev.err THEN "ferr" ELSE "fok" IN
+       pendF' = IF cpc[M] = "done" THEN pendF ELSE [pendF EXCEPT ![M][k] = @ + 1]
 
 \* the call has ended: by a reply taken before (nothing left to do), by its
 \* context, or - streaming - because its quorum function is satisfied
@@ -122,7 +146,7 @@ RouteOK == Ev.found = (M \in routers)
 IsErr == Ev.found => Ev.err        \* (the event of a delivery that finds no router does not know the error)
 TRoute ==
   /\ Is("Route") /\ Ev.why = "resp" /\ Step /\ TUnch /\ RouteOK
-  /\ \/ rpc = "route" /\ rmsg = M /\ Route                             \* the receiver
+  /\ \/ rpc = "route" /\ rmsg = M /\ Route /\ (Ev.found => (Ev.err = (M \in hfail)))   \* the receiver
      \/ spc = "brokenreply" /\ cur = M /\ BrokenReply /\ IsErr         \* the sender: stream is down
      \/ spc = "confirm" /\ cur = M /\ Confirm                           \* the sender: confirmation / send error
         /\ (Kind[M] = "sw" \/ sndErr)
@@ -184,20 +208,20 @@ TCtxSkip == Is("CtxSkip") /\ Step /\ TUnch /\ CtxCheck /\ cur = M /\ sndErr'
 TSndRLocked == Is("SndRLocked") /\ Step /\ TUnch /\ SRLock /\ cur = M
 TWatcherCancel == Is("WatcherCancel") /\ Step /\ TUnch /\ WatcherFires(M)
 TSendDone ==
-  /\ Is("SendDone") /\ Step /\ UNCHANGED <<handed, stopping, srvUp, unrep, closing, lateErr>>
+  /\ Is("SendDone") /\ Step /\ UNCHANGED <<handed, stopping, srvUp, unrep, closing, lateErr, hfail, pendF, errSeen>>
   /\ SendDone /\ cur = M /\ (Ev.ok = ~sndErr')
   /\ UNCHANGED sentOn
 TSndRUnlock == Is("SndRUnlock") /\ Step /\ TUnch /\ Stutter /\ "snd" \notin lkR
 \* (for a send-waiting one-way request whose send failed the code routes twice: the
 \* confirmation, then the error, which finds no router any more)
 TSndMarker == /\ (Is("Confirm") \/ Is("ErrReply")) /\ Step /\ Stutter
-              /\ UNCHANGED <<handed, sentOn, stopping, srvUp, unrep, closing>>
+              /\ UNCHANGED <<handed, sentOn, stopping, srvUp, unrep, closing, hfail, pendF, errSeen>>
               /\ IF spc = "confirm" /\ cur = M THEN UNCHANGED lateErr
                  ELSE Is("ErrReply") /\ Kind[M] = "sw" /\ lateErr = 0 /\ lateErr' = M
 TLateErrRoute == /\ Is("Route") /\ Ev.why = "resp" /\ Step /\ Stutter /\ lateErr = M /\ M \notin routers /\ ~Ev.found
-                 /\ lateErr' = 0 /\ UNCHANGED <<handed, sentOn, stopping, srvUp, unrep, closing>>
+                 /\ lateErr' = 0 /\ UNCHANGED <<handed, sentOn, stopping, srvUp, unrep, closing, hfail, pendF, errSeen>>
 \* (a request may be drained - by another goroutine - before its caller has logged the hand-off)
-TDrainMarker == /\ Is("Drain") /\ Step /\ closed /\ UNCHANGED <<sentOn, stopping, srvUp, unrep, closing, lateErr>>
+TDrainMarker == /\ Is("Drain") /\ Step /\ closed /\ UNCHANGED <<sentOn, stopping, srvUp, unrep, closing, lateErr, hfail, pendF, errSeen>>
                 /\ IF M \in handed THEN Stutter /\ UNCHANGED handed
                    ELSE HandOffQueue(M) /\ handed' = handed \cup {M}
 TSenderExit == Is("SenderExit") /\ Step /\ TUnch /\ (IF spc = "exited" THEN Stutter ELSE SenderExit)
@@ -242,7 +266,8 @@ THReturn ==
 \* reach the client.  (The event precedes the write; the order in which replies of
 \* concurrent handlers reach the wire is left open, see TRecvOk.)
 THReply ==
-  /\ (Is("HReply") \/ Is("HFail")) /\ Step /\ TUnch
+  /\ (Is("HReply") \/ Is("HFail")) /\ Step /\ UNCHANGED <<handed, sentOn, stopping, srvUp, unrep, closing, lateErr, pendF, errSeen>>
+  /\ hfail' = IF Is("HFail") THEN hfail \cup {M} ELSE hfail
   /\ LET e == sentOn[M] IN
        IF e > 0 /\ <<e, M>> \in handlers /\ Kind[M] \in {"two", "stream"}
          THEN /\ s2c' = [s2c EXCEPT ![e] = Append(@, M)]
@@ -252,20 +277,36 @@ THReply ==
 TCtxEnd == Is("CtxEnd") /\ Step /\ TUnch /\ (IF ctx[M] = "live" /\ (cpc[M] # "done" \/ InTransit(M)) THEN CtxEnd(M) ELSE Stutter)
 \* the node's context is cancelled at some instant between the two events
 TNodeCancelBegin == /\ Is("NodeCancelBegin") /\ Step /\ Stutter /\ closing' = TRUE
-                    /\ UNCHANGED <<handed, sentOn, stopping, srvUp, unrep, lateErr>>
+                    /\ UNCHANGED <<handed, sentOn, stopping, srvUp, unrep, lateErr, hfail, pendF, errSeen>>
 TNodeCancel == /\ Is("NodeCancel") /\ Step /\ Stutter /\ closed /\ closing' = FALSE
-               /\ UNCHANGED <<handed, sentOn, stopping, srvUp, unrep, lateErr>>
+               /\ UNCHANGED <<handed, sentOn, stopping, srvUp, unrep, lateErr, hfail, pendF, errSeen>>
 
 \* A server is stopped: it dies at some instant between the two events; a server
 \* that listens again becomes reachable at some instant after the event.
-TEnvStop == Is("EnvStop") /\ Step /\ Stutter /\ stopping' = TRUE /\ srvUp' = FALSE /\ UNCHANGED <<handed, sentOn, unrep, closing, lateErr>>
-TEnvStopped == Is("EnvStopped") /\ Step /\ Stutter /\ ~up /\ stopping' = FALSE /\ UNCHANGED <<handed, sentOn, srvUp, unrep, closing, lateErr>>
-TEnvStart == Is("EnvStart") /\ Step /\ Stutter /\ srvUp' = TRUE /\ UNCHANGED <<handed, sentOn, stopping, unrep, closing, lateErr>>
+TEnvStop == Is("EnvStop") /\ Step /\ Stutter /\ stopping' = TRUE /\ srvUp' = FALSE /\ UNCHANGED <<handed, sentOn, unrep, closing, lateErr, hfail, pendF, errSeen>>
+TEnvStopped == Is("EnvStopped") /\ Step /\ Stutter /\ ~up /\ stopping' = FALSE /\ UNCHANGED <<handed, sentOn, srvUp, unrep, closing, lateErr, hfail, pendF, errSeen>>
+TEnvStart == Is("EnvStart") /\ Step /\ Stutter /\ srvUp' = TRUE /\ UNCHANGED <<handed, sentOn, stopping, unrep, closing, lateErr, hfail, pendF, errSeen>>
 
 (***************************************************************************)
 (* Steps without an event of their own                                     *)
 (***************************************************************************)
 TakeSilently == \E r \in Reqs : r \notin unrep /\ Streaming(r) /\ Take(r) /\ unrep' = unrep \cup {r}
+\* the announced response of another node reaches the shared reply channel / a caller's own answer is dropped
+ForeignArrive == \E r \in Reqs : \E k \in {"fok", "ferr", "fown"} :
+  /\ pendF[r][k] > 0 /\ cpc[r] # "done"
+  /\ ForeignItemV(r, IF k = "fok" THEN "fok" ELSE "ferr")
+  /\ pendF' = [pendF EXCEPT ![r][k] = @ - 1]
+ForeignDrop == \E r \in Reqs :
+  /\ pendF[r]["fown"] > 0 /\ Len(resp[r]) - taken[r] >= CapOf(r)
+  /\ pendF' = [pendF EXCEPT ![r]["fown"] = @ - 1] /\ UNCHANGED vars
+\* a streaming call counts a failing node once: a further error of a node that has been counted is taken
+\* from the channel and dropped without an event
+DropDup == \E r \in unrep :
+  /\ Multi(r)
+  /\ LET v == resp[r][taken[r]] IN
+       \/ (v = "err" \/ (v = "ok" /\ r \in hfail)) /\ "own" \in errSeen[r]
+       \/ v = "ferr" /\ "for" \in errSeen[r]
+  /\ unrep' = unrep \ {r} /\ UNCHANGED vars
 \* the message is on the wire before SendMsg returns
 WriteSilently == SendWrite /\ sentOn' = [sentOn EXCEPT ![cur] = sndEpoch]
 SilentStep ==
@@ -283,14 +324,20 @@ SilentStep ==
      \/ srvUp /\ ~stopping /\ Restart
      \/ \E r \in Reqs : Foreign /\ ForeignItem(r)
      \/ \E r \in Reqs : DrainItem(r)                          \* a finished call drains its channel
+\* a caller has put its request into the (buffered) send queue but has not logged HandOff yet: the queue
+\* order is the order of the channel operations, not of the events
+HandOffSilently == SendBuf > 0 /\ \E r \in Reqs : r \notin handed /\ HandOffQueue(r) /\ handed' = handed \cup {r}
 Silent ==
-  /\ UNCHANGED <<l, handed, stopping, srvUp, closing, lateErr>>
-  /\ \/ TakeSilently /\ UNCHANGED sentOn
-     \/ WriteSilently /\ UNCHANGED unrep
-     \/ UNCHANGED <<unrep, sentOn>> /\ SilentStep
+  /\ UNCHANGED <<l, stopping, srvUp, closing, lateErr, hfail, errSeen>>
+  /\ \/ TakeSilently /\ UNCHANGED <<sentOn, pendF, handed>>
+     \/ WriteSilently /\ UNCHANGED <<unrep, pendF, handed>>
+     \/ UNCHANGED <<unrep, sentOn, pendF, handed>> /\ SilentStep
+     \/ UNCHANGED <<unrep, sentOn, handed>> /\ (ForeignArrive \/ ForeignDrop)
+     \/ UNCHANGED <<sentOn, pendF, handed>> /\ DropDup
+     \/ UNCHANGED <<unrep, sentOn, pendF>> /\ HandOffSilently
 
 Consume ==
-  \/ TRegisterRouter \/ THandOffWait \/ THandOff \/ TDequeue \/ TOwnMarker \/ TCallRecv \/ TCallEnd \/ TDeleteRouter
+  \/ TRegisterRouter \/ THandOffWait \/ THandOff \/ TDequeue \/ TOwnMarker \/ TCallRecv \/ TCallConfirmOther \/ TFRoute \/ TCallEnd \/ TDeleteRouter
   \/ TRoute \/ TLateErrRoute \/ TCancelPending \/ TRouteDown
   \/ TSndConnect \/ TDial \/ TFirstStream \/ TReceiverStart \/ TReconLockBusy \/ TReconLocked \/ TReconSeeUp
   \/ TReconNewStream \/ TReconGiveUp \/ TReconSleep \/ TReconTimer \/ TReconWoken \/ TReconParentDone
@@ -305,5 +352,8 @@ TSpec == TInit /\ [][TNext]_tvars
 \* success signal: every line has been consumed
 NotDone == l <= Len(Trace)
 \* the safety properties of Channel.tla, in every state of the matching behaviours
-TraceInv == AtMostOneResponse /\ ConfirmOnlyOneWay /\ OneUnreleased /\ NoDoubleStart /\ NoPanic
+\* (FifoPerConn of Channel.tla, evaluated on adjacent pairs: the hand-off order is a sequence without repetition)
+EnqPos(x) == CHOOSE a \in DOMAIN enqOrder : enqOrder[a] = x
+FifoFast == \A e \in Epochs : \A i \in 1..(Len(started[e]) - 1) : EnqPos(started[e][i]) < EnqPos(started[e][i + 1])
+TraceInv == AtMostOneResponse /\ ConfirmOnlyOneWay /\ OneUnreleased /\ NoDoubleStart /\ NoPanic /\ FifoFast /\ NoLockWedge
 =============================================================================
